@@ -46,6 +46,8 @@ pub fn feature_texts() -> Vec<(String, String)> {
         add("zero-argument-call", format!("pragma solidity 0.8.4 ; contract C {{ function f ( ) public {{ {callee} ( ) ; if ( a == {callee} ( ) ) {{ }} if ( {callee} ( ) != a ) {{ }} y = {callee} ( ) . balance ; }} }}"));
     }
     add("zero-argument-call", "pragma solidity 0.8.4 ; contract C { function f ( ) public { require ( ) ; require ( \"only a message\" ) ; } }".into());
+    add("non-ascii-identifiers", "pragma solidity 0.8.0 ; contract \u{c9}t\u{e9} { uint256 private \u{e9} ; uint256 public _\u{e9} ; function \u{e9}mettre ( ) private { } function _\u{e9}mettre ( uint256 \u{540d} ) public { \u{e9} = \u{540d} ; } function \u{1d4b3} ( string memory \u{3b1} ) external { } }".into());
+    add("non-ascii-identifiers", "pragma solidity 0.8.0 ; using SafeMath for uint256 ; contract C { function f ( uint256 \u{e9} ) public { \u{e9} . add ( 1 ) ; \u{e9} . \u{e9} ( ) ; require ( \u{e9} > 0 , \"\u{e9}\u{e9}\u{e9}\u{e9}\u{e9}\u{e9}\u{e9}\u{e9}\u{e9}\u{e9}\u{e9}\u{e9}\u{e9}\u{e9}\u{e9}\u{e9}\u{e9}\" ) ; \u{e9} . transfer ( \u{e9} ) ; } }".into());
     add("empty-contract", "pragma solidity 0.8.0 ; contract C { } interface I { } library L { } abstract contract A { }".into());
     add("empty-struct", "pragma solidity 0.8.0 ; struct S { } contract C { struct T { } }".into());
     add("bodyless", "pragma solidity 0.8.0 ; contract C { function f ( string memory p ) public ; modifier m ; constructor ( ) ; }".into());
